@@ -327,9 +327,45 @@ LawC13(cs) ==
     [] OTHER -> TRUE
 
 ---------------------------------------------------------------------------
-Cases == CASE Family = "C06" -> CasesC06 [] Family = "C07" -> CasesC07 [] Family = "C10" -> CasesC10
+(* C08: reference graphs on three named subtrees; every node has at most    *)
+(* one outgoing reference, in every form                                    *)
+Nodes08 == {"x", "y", "z"}
+Forms08 == {<<"plain", "">>} \cup {<<f, t>> : f \in {"mapmerge", "mapreplace", "strmerge", "listmerge", "interp"}, t \in Nodes08}
+            \cup {<<"selfwhole", "">>}
+Node08(f) ==
+  CASE f[1] = "plain" -> Single("v", I("1"))
+    [] f[1] = "mapmerge" -> Mk2("$merge", S(f[2]), "own", I("1"))
+    [] f[1] = "mapreplace" -> Single("$replace", S(f[2]))
+    [] f[1] = "strmerge" -> S("$merge:" \o f[2])
+    [] f[1] = "listmerge" -> L(<<Single("$merge", S(f[2])), I("9")>>)
+    [] f[1] = "interp" -> S("$\"<{" \o f[2] \o "}>\"")
+    [] f[1] = "selfwhole" -> Mk2("$merge", EmptyList, "own", I("1"))
+CasesC08 ==
+  {CaseX(<<Mk3("x", Node08(fx), "y", Node08(fy), "z", Node08(fz))>>, NoEnv, "refgraph", <<fx, fy, fz>>)
+     : fx \in Forms08, fy \in Forms08, fz \in Forms08}
+  (* two whole-document self-merges feed each other: a cycle with fan-out,   *)
+  (* the known finding c08-branching-cycle, probed separately by the harness *)
+  \ {cs \in {CaseX(<<Mk3("x", Node08(fx), "y", Node08(fy), "z", Node08(fz))>>, NoEnv, "refgraph", <<fx, fy, fz>>)
+               : fx \in Forms08, fy \in Forms08, fz \in Forms08} :
+        Cardinality({i \in 1..3 : cs.aux[i][1] = "selfwhole"}) >= 2}
+EdgeOf(aux, n) == LET f == IF n = "x" THEN aux[1] ELSE IF n = "y" THEN aux[2] ELSE aux[3] IN
+                  IF f[1] \in {"plain", "selfwhole"} THEN "" ELSE f[2]
+FormOf(aux, n) == (IF n = "x" THEN aux[1] ELSE IF n = "y" THEN aux[2] ELSE aux[3])[1]
+RECURSIVE Reach08(_, _, _)
+Reach08(aux, n, k) == IF k = 0 \/ n = "" THEN {} ELSE {EdgeOf(aux, n)} \cup Reach08(aux, EdgeOf(aux, n), k - 1)
+OnCycle(aux, n) == n \in Reach08(aux, n, 3)
+(* a cycle made only of forms that keep the reference in place while it is followed *)
+StrictCycle(aux) == \E n \in Nodes08 : OnCycle(aux, n) /\
+                      \A k \in (Reach08(aux, n, 3) \cap Nodes08) : OnCycle(aux, k) => FormOf(aux, k) \in {"mapreplace", "strmerge", "interp"}
+Acyclic(aux) == \A n \in Nodes08 : ~OnCycle(aux, n)
+LawC08(cs) ==
+  LET r == EvalS(cs.docs, NoEnv) IN
+  /\ StrictCycle(cs.aux) => ~r.ok
+  /\ (Acyclic(cs.aux) /\ \A i \in 1..3 : cs.aux[i][1] # "selfwhole") => (r.ok \/ r.err # "circular")
+
+Cases == CASE Family = "C08" -> CasesC08 [] Family = "C06" -> CasesC06 [] Family = "C07" -> CasesC07 [] Family = "C10" -> CasesC10
            [] Family = "C11" -> CasesC11 [] Family = "C12" -> CasesC12 [] Family = "C13" -> CasesC13
-Law(cs) == CASE Family = "C06" -> LawC06(cs) [] Family = "C07" -> LawC07(cs) [] Family = "C10" -> LawC10(cs)
+Law(cs) == CASE Family = "C08" -> LawC08(cs) [] Family = "C06" -> LawC06(cs) [] Family = "C07" -> LawC07(cs) [] Family = "C10" -> LawC10(cs)
              [] Family = "C11" -> LawC11(cs) [] Family = "C12" -> LawC12(cs) [] Family = "C13" -> LawC13(cs)
 
 (* chains (C06 layered, C07, C12 override) are layered first, as two layers of one file chain *)
